@@ -139,8 +139,14 @@ Viol(a, o, act, a2, o2) ==
         THEN {"DisputeCommitsHonest"} ELSE {})
   \* dispute clause (3): the honest peer is not banned
   \cup (IF (act.op \in ROps \cup UOps) /\ srv # {} /\ allProvable
+           /\ (\A h \in 1..n : F[h] >= 0 /\ MaskOf(F[h]) = 0)   \* nothing false committed before
            /\ \E q \in newban : Kd(o2, q) = "H"
         THEN {"HonestNotBanned"} ELSE {})
+  \* ... nor while the checkpoints that came out of the dispute are being fetched
+  \cup (IF act.op = "CPDeliver" /\ a2.cpsrv # {} /\ (\A p \in a2.cpsrv : Kd(o2, p) \in Provable)
+           /\ (\A h \in 1..n : F[h] >= 0 /\ MaskOf(F[h]) = 0)
+           /\ \E q \in newban : Kd(o2, q) = "H"
+        THEN {"HonestNotBannedInFetch"} ELSE {})
   \* dispute clause (2): the peers that served the false ones are banned
   \cup (IF \/ /\ act.op \in ROps /\ act.res = "good" /\ srv # {} /\ allProvable
               /\ HonestPresent(o)
